@@ -2,8 +2,8 @@ import FranzVerif.Model.C29
 /-! C32 — kfake behaves like a Kafka partition log.
 
 Hand-written model of kfake's partition log and transaction coordinator as the code performs them
-(one broker, one topic; segments are flattened into one batch list: the default `segment.bytes` is
-never reached by the histories of the correspondence run).
+(one topic, one or two brokers without followers; segments are flattened into one batch list: the default
+`segment.bytes` is never reached by the histories of the correspondence run).
 -- models: pkg/kfake/data.go:Cluster.pushBatch
 -- models: pkg/kfake/data.go:partData.recalculateLSO
 -- models: pkg/kfake/data.go:Cluster.trimLeft
@@ -14,6 +14,9 @@ never reached by the histories of the correspondence run).
 -- models: pkg/kfake/01_fetch.go:fetchSessions.getOrCreate
 -- models: pkg/kfake/01_fetch.go:fetchSession.updatePartition
 -- models: pkg/kfake/01_fetch.go:fetchSession.updateAndFilterResponse
+-- models: pkg/kfake/01_fetch.go:watchFetch.push
+-- models: pkg/kfake/01_fetch.go:watchFetch.addBytes
+-- models: pkg/kfake/cluster.go:Cluster.MoveTopicPartition
 -- models: pkg/kfake/21_delete_records.go:Cluster.handleDeleteRecords
 -- models: pkg/kfake/txns.go:pids.doInitProducerID
 -- models: pkg/kfake/txns.go:pids.doAddPartitions
@@ -195,6 +198,7 @@ structure Session where
   id : Int
   epoch : Int
   parts : List SPart
+  broker : Nat := 0          -- sessions are kept per broker
 deriving Repr
 
 structure State where
@@ -203,9 +207,15 @@ structure State where
   prods : List (Int × Prod) := []
   sessions : List Session := []
   nextSid : Int := 1
+  leaders : List Nat := []    -- leader of every partition
+  nb : Nat := 1               -- brokers
+  via : Nat := 0              -- the broker the history's client is talking to (partition-level requests)
 deriving Repr
 
-def init (np : Nat) : State := { parts := List.replicate np {} }
+def init (np : Nat) (nb : Nat := 1) : State := { parts := List.replicate np {}, leaders := List.replicate np 0, nb := nb }
+
+/-- is the broker the client talks to the leader of partition `p`? -/
+def isLeader (s : State) (p : Nat) : Bool := s.leaders.getD p 0 == s.via
 
 def getProd (s : State) (k : Int) : Option Prod := s.prods.lookup k
 def setProd (s : State) (k : Int) (p : Prod) : State :=
@@ -345,7 +355,8 @@ def produce (s : State) (v12 : Bool) (k epoch seq n nbytes : Int) (p : Nat) (tx 
   match s.parts[p]? with
   | none => (s, 3, 0, -1)
   | some pd =>
-    if tx && k < 0 then (s, 49, 0, -1)
+    if !isLeader s p then (s, 6, 0, -1)
+    else if tx && k < 0 then (s, 49, 0, -1)
     else if k < 0 then (setPart s p (pushBatch pd ⟨0, n, k, epoch, seq, tx, false, false, nbytes⟩ tx), 0, pd.hwm, pd.logStart)
     else
       let r1 := pidsGet s v12 k p tx
@@ -385,20 +396,21 @@ structure PResp where
 deriving Repr, DecidableEq
 
 /-- the response loop of `handleFetch` over `toFetch`. `unk` = error code for an unknown partition. -/
-def fetchLoop (parts : List Part) (rc : Bool) (maxBytes unk : Int) : List FReq → (nbytes : Int) → (added : Nat) → List PResp
+def fetchLoop (parts : List Part) (rc : Bool) (maxBytes unk : Int) (lead : Nat → Bool) : List FReq → (nbytes : Int) → (added : Nat) → List PResp
   | [], _, _ => []
   | fp :: rest, nb, ad =>
     match parts[fp.p]? with
-    | none => ⟨fp.p, unk, 0, -1, -1, [], []⟩ :: fetchLoop parts rc maxBytes unk rest nb ad
+    | none => ⟨fp.p, unk, 0, -1, -1, [], []⟩ :: fetchLoop parts rc maxBytes unk lead rest nb ad
     | some pd =>
+      if !lead fp.p then ⟨fp.p, 6, 0, -1, -1, [], []⟩ :: fetchLoop parts rc maxBytes unk lead rest nb ad else
       match searchOffset pd fp.off with
-      | .atEnd => ⟨fp.p, 0, pd.hwm, pd.lso, pd.logStart, [], []⟩ :: fetchLoop parts rc maxBytes unk rest nb ad
-      | .outOfRange => ⟨fp.p, 1, pd.hwm, pd.lso, pd.logStart, [], []⟩ :: fetchLoop parts rc maxBytes unk rest nb ad
+      | .atEnd => ⟨fp.p, 0, pd.hwm, pd.lso, pd.logStart, [], []⟩ :: fetchLoop parts rc maxBytes unk lead rest nb ad
+      | .outOfRange => ⟨fp.p, 1, pd.hwm, pd.lso, pd.logStart, [], []⟩ :: fetchLoop parts rc maxBytes unk lead rest nb ad
       | .found bs =>
         let w := walk rc pd.lso maxBytes fp.pmax bs 0 nb ad
         let ab := if rc then abortedFor pd.aborted fp.off w.1 else []
         let r : PResp := ⟨fp.p, 0, pd.hwm, pd.lso, pd.logStart, w.1, ab⟩
-        if w.2.2.2 then [r] else r :: fetchLoop parts rc maxBytes unk rest w.2.1 w.2.2.1
+        if w.2.2.2 then [r] else r :: fetchLoop parts rc maxBytes unk lead rest w.2.1 w.2.2.1
 
 /-- `updatePartition` -/
 def sessUpdate (ps : List SPart) (r : FReq) : List SPart :=
@@ -440,18 +452,19 @@ def implicitOrder (ord : List Nat) (impl : List SPart) : List SPart :=
 /-- `handleFetch` once it answers (no waiting, or woken): (state, top-level error, session id, partitions of the response). -/
 def fetch (s : State) (f : FetchOp) (ord : List Nat) : State × Int × Int × List PResp :=
   let unk : Int := if f.v13 then 100 else 3
-  let without (id : Int) := s.sessions.filter (fun x => x.id != id)
+  let without (id : Int) := s.sessions.filter (fun x => !(x.id == id && x.broker == s.via))
+  let lead := isLeader s
   if f.sepoch == -1 then
     let s1 := if f.sid > 0 then { s with sessions := without f.sid } else s
-    (s1, 0, 0, fetchLoop s.parts f.rc f.maxBytes unk f.req 0 0)
+    (s1, 0, 0, fetchLoop s.parts f.rc f.maxBytes unk lead f.req 0 0)
   else if f.sepoch == 0 then
     let sess0 := if f.sid > 0 then without f.sid else s.sessions
     let ps := (f.req.foldl sessUpdate ([] : List SPart))
-    let resp := fetchLoop s.parts f.rc f.maxBytes unk f.req 0 0
-    let se : Session := ⟨s.nextSid, 1, sessRecord ps resp⟩
+    let resp := fetchLoop s.parts f.rc f.maxBytes unk lead f.req 0 0
+    let se : Session := ⟨s.nextSid, 1, sessRecord ps resp, s.via⟩
     ({ s with sessions := sess0 ++ [se], nextSid := s.nextSid + 1 }, 0, se.id, resp)
   else
-    match s.sessions.find? (fun x => x.id == f.sid) with
+    match s.sessions.find? (fun x => x.id == f.sid && x.broker == s.via) with
     | none => (s, 70, 0, [])
     | some se =>
       if f.sepoch != se.epoch then (s, 71, 0, [])
@@ -460,10 +473,10 @@ def fetch (s : State) (f : FetchOp) (ord : List Nat) : State × Int × Int × Li
         let ps := f.req.foldl sessUpdate ps0
         let impl := ps.filter (fun e => !f.req.any (fun r => r.p == e.p))
         let toFetch := f.req ++ (implicitOrder ord impl).map (fun e => ⟨e.p, e.off, e.pmax⟩)
-        let resp := fetchLoop s.parts f.rc f.maxBytes unk toFetch 0 0
+        let resp := fetchLoop s.parts f.rc f.maxBytes unk lead toFetch 0 0
         let kept := resp.filter (sessInclude true ps)
-        let se' : Session := ⟨se.id, se.epoch + 1, sessRecord ps resp⟩
-        ({ s with sessions := s.sessions.map (fun x => if x.id == se.id then se' else x) }, 0, se.id, kept)
+        let se' : Session := ⟨se.id, se.epoch + 1, sessRecord ps resp, se.broker⟩
+        ({ s with sessions := s.sessions.map (fun x => if x.id == se.id && x.broker == se.broker then se' else x) }, 0, se.id, kept)
 
 /-! ### Waiting fetches (`MinBytes > 0`) -/
 
@@ -476,11 +489,12 @@ def firstPassWalk (rc : Bool) (lso pmax : Int) : List Batch → Int → Int × B
     else firstPassWalk rc lso pmax r (acc + m.nbytes)
 
 /-- the first pass: (returnEarly, bytes available, per-partition remaining bytes `needp`, watched partitions). -/
-def firstPass (parts : List Part) (rc : Bool) (reqs : List FReq) : Bool × Int × List (Nat × Int) × List Nat :=
+def firstPass (parts : List Part) (rc : Bool) (reqs : List FReq) (lead : Nat → Bool) : Bool × Int × List (Nat × Int) × List Nat :=
   reqs.foldl (fun (acc : Bool × Int × List (Nat × Int) × List Nat) fp =>
     match parts[fp.p]? with
     | none => acc
     | some pd =>
+      if !lead fp.p then (true, acc.2) else
       let acc : Bool × Int × List (Nat × Int) × List Nat := (acc.1, acc.2.1, acc.2.2.1, acc.2.2.2 ++ [fp.p])
       match searchOffset pd fp.off with
       | .atEnd => acc
@@ -529,7 +543,7 @@ handler has already run its session part once (a new session is created, and a s
 def fetchW (s : State) (f : FetchOp) (ord : List Nat) : State × Int × Int × Int × List PResp :=
   let toFetch : Option (List FReq) :=
     if f.sepoch == -1 || f.sepoch == 0 then some f.req
-    else match s.sessions.find? (fun x => x.id == f.sid) with
+    else match s.sessions.find? (fun x => x.id == f.sid && x.broker == s.via) with
       | none => none
       | some se =>
         if f.sepoch != se.epoch then none
@@ -539,13 +553,13 @@ def fetchW (s : State) (f : FetchOp) (ord : List Nat) : State × Int × Int × I
   match toFetch with
   | none => let r := fetch s f ord; (r.1, 0, r.2)
   | some tf =>
-    let fp := firstPass s.parts f.rc tf
+    let fp := firstPass s.parts f.rc tf (isLeader s)
     if fp.1 || fp.2.1 ≥ f.minBytes || f.maxWait ≤ 0 then let r := fetch s f ord; (r.1, 0, r.2)
     else
-      let without (id : Int) := s.sessions.filter (fun x => x.id != id)
+      let without (id : Int) := s.sessions.filter (fun x => !(x.id == id && x.broker == s.via))
       let s1 : State :=
         if f.sepoch == 0 then
-          { s with sessions := (if f.sid > 0 then without f.sid else s.sessions) ++ [⟨s.nextSid, 1, f.req.foldl sessUpdate []⟩],
+          { s with sessions := (if f.sid > 0 then without f.sid else s.sessions) ++ [⟨s.nextSid, 1, f.req.foldl sessUpdate [], s.via⟩],
                    nextSid := s.nextSid + 1 }
         else if f.sepoch == -1 && f.sid > 0 then { s with sessions := without f.sid }
         else s
@@ -564,6 +578,8 @@ inductive Op where
   | del (p : Nat) (off : Int)
   | sleep (ms : Int)
   | fetch (f : FetchOp) (ord : List Nat)
+  | move (p b : Nat)      -- `MoveTopicPartition`
+  | via (b : Nat)         -- the client turns to broker `b`
 deriving Repr
 
 /-- what an operation answers (compared field by field with the implementation). -/
@@ -585,7 +601,11 @@ def step (s : State) : Op → State × Out
   | .del p off =>
     match s.parts[p]? with
     | none => (s, .codeVal 3 0)
-    | some pd => let r := deleteRecords pd off; (expireAll (setPart s p r.1), .codeVal r.2.1 r.2.2)
+    | some pd =>
+      if !isLeader s p then (expireAll s, .codeVal 6 0) else
+      let r := deleteRecords pd off; (expireAll (setPart s p r.1), .codeVal r.2.1 r.2.2)
+  | .move p b => (if p < s.parts.length && b < s.nb then { s with leaders := s.leaders.set p b } else s, .ok)
+  | .via b => (if b < s.nb then { s with via := b } else s, .ok)
   | .sleep ms => (expireAll { s with now := s.now + ms }, .ok)
   | .fetch f ord => let r := fetchW s f ord; (expireAll r.1, .fetch r.2.1 r.2.2.1 r.2.2.2.1 r.2.2.2.2)
 
